@@ -31,13 +31,13 @@ Lemma ils_loop_spec absolute n : Forall valid_label n -> forall fuel i, (length 
 Proof.
   induction n as [|l n IH]; intros Hv fuel i Hf; (destruct fuel as [|f]; [cbn in Hf; lia|]).
   - destruct absolute; [|reflexivity]. cbn [ils_loop wire_of wire_rel map concat app is_empty].
-    change (split_from [0%N]) with (Ok (@nil N, @nil N)). cbn [length is_start].
+    change (split_from [0%N]) with (Ok (@nil N, @nil N)). unfold ils_len_add, ils_root_len. cbn [length is_start].
     rewrite orb_true_r. reflexivity.
   - inversion Hv as [|? ? [[L1 L2] L3] Hv']; subst.
     assert (E : wire_of absolute (l :: n) = wire_label l ++ wire_of absolute n).
     { unfold wire_of, wire_rel. cbn [map concat]. rewrite <- app_assoc. reflexivity. }
     rewrite E. cbn [ils_loop]. assert (He : is_empty (wire_label l ++ wire_of absolute n) = false) by reflexivity.
-    rewrite He. rewrite split_from_wire by lia. cbn [is_start].
+    rewrite He. rewrite split_from_wire by lia. unfold ils_len_add, ils_root_len. cbn [is_start].
     replace (length l + 1)%nat with (S (length l)) by lia.
     assert (H1 : (S (length l) =? 1)%nat = false) by (apply Nat.eqb_neq; lia). rewrite H1, andb_false_r, orb_false_r.
     destruct (i <? S (length l))%nat; [reflexivity|]. destruct (i =? S (length l))%nat; [reflexivity|].
@@ -76,6 +76,11 @@ Proof.
   - intros [->|(k & Hk & ->)]; [exists 0%nat; cbn; split; [lia|reflexivity]|exists k; split; [lia|reflexivity]].
   - intros (k & Hk & ->). destruct k as [|k]; [left; reflexivity|right; exists (S k); split; [lia|reflexivity]].
 Qed.
+
+Theorem is_label_start_full absolute n i : Forall valid_label n ->
+  is_label_start absolute (wire_of absolute n) i = Ok ((i =? 0)%nat || is_start n i) /\
+  (((i =? 0)%nat || is_start n i = true) <-> at_label n i).
+Proof. intros; split; [apply is_label_start_spec; assumption|apply accepted_iff]. Qed.
 
 Theorem check_index_spec absolute n i : Forall valid_label n ->
   (at_label n i /\ check_index absolute (wire_of absolute n) i = Ok tt) \/
@@ -279,7 +284,7 @@ Qed.
 (* ---- into_relative / into_absolute *)
 Theorem into_relative_spec n : valid_abs n -> n_into_relative (wire_abs n) = Ok (wire_rel n) /\ valid_rel n.
 Proof.
-  intros Hv. split; [|exact Hv]. unfold n_into_relative. rewrite wire_abs_length.
+  intros Hv. split; [|exact Hv]. unfold n_into_relative, into_relative_sub. rewrite wire_abs_length.
   destruct (Nat.ltb_spec (S (wire_len n)) 1); [lia|].
   replace (S (wire_len n) - 1)%nat with (length (wire_rel n)) by (rewrite wire_rel_length; lia).
   unfold wire_abs. rewrite firstn_app, firstn_all, Nat.sub_diag. cbn [firstn]. rewrite app_nil_r. reflexivity.
